@@ -564,21 +564,41 @@ func fragNodes(f bcl.Frag) []pnode {
 	return []pnode{{99, f.Start, f.End}}
 }
 
+// stmtNodes flattens a tree node in the model's order (header nodes, 13, the body, 14) with an
+// explicit stack: block nesting of any depth (10^6 in stream deepblocks) must not overflow the stack
+// here, and appending the children into one slice keeps it linear.
 func stmtNodes(f bcl.Frag) []pnode {
-	switch f.Kind {
-	case "block":
-		out := headerNodes(f)
-		out = append(out, pnode{13, bcl.Point{}, bcl.Point{}})
-		for _, b := range f.Body {
-			out = append(out, stmtNodes(b)...)
-		}
-		return append(out, pnode{14, bcl.Point{}, bcl.Point{}})
-	case "assign":
-		return assignNodes(f)
-	case "desc":
-		return descNodes(3, f)
+	var out []pnode
+	type frame struct {
+		body []bcl.Frag
+		idx  int
 	}
-	return []pnode{{99, f.Start, f.End}}
+	stack := []frame{{body: []bcl.Frag{f}}}
+	for len(stack) > 0 {
+		top := &stack[len(stack)-1]
+		if top.idx == len(top.body) {
+			stack = stack[:len(stack)-1]
+			if len(stack) > 0 {
+				out = append(out, pnode{14, bcl.Point{}, bcl.Point{}})
+			}
+			continue
+		}
+		x := top.body[top.idx]
+		top.idx++
+		switch x.Kind {
+		case "block":
+			out = append(out, headerNodes(x)...)
+			out = append(out, pnode{13, bcl.Point{}, bcl.Point{}})
+			stack = append(stack, frame{body: x.Body})
+		case "assign":
+			out = append(out, assignNodes(x)...)
+		case "desc":
+			out = append(out, descNodes(3, x)...)
+		default:
+			out = append(out, pnode{99, x.Start, x.End})
+		}
+	}
+	return out
 }
 
 // ---- running things under recover and a deadline ---------------------------------------
@@ -614,4 +634,32 @@ func clip(s string, n int) string {
 		return s[:n] + "..."
 	}
 	return s
+}
+
+// utf8Corpus: a pinned corpus for the byte level of C09 / C11 / C19. Every literal kind and several
+// grammatical positions hold valid multi-byte characters (2, 3, 4 bytes, U+FFFD itself, a BOM, the Unicode
+// spaces NEL / NBSP / U+2028 that the lexer skips as white space, U+200B that it does not) and every kind of
+// invalid UTF-8 ([]rune reads each bad byte as U+FFFD: lone continuation, 0xFF, truncated 2/3/4-byte
+// sequences, overlong C0 80, a surrogate ED A0 80, beyond U+10FFFF), also at the end of a line and of the file.
+func utf8Corpus() []string {
+	pieces := []string{
+		"\u00e9", "\u65e5\u672c", "\U0001F600", "\ufffd", "\ufeff", "\u0085", "\u00a0", "\u2028", "\u200b",
+		"\xff", "\x80", "\xc3", "\xe2\x82", "\xf0\x9f\x98", "\xc0\x80", "\xed\xa0\x80", "\xf4\x90\x80\x80",
+		"a\xffb\U0001F600\xc3",
+	}
+	var out []string
+	for _, p := range pieces {
+		out = append(out,
+			"x = \""+p+"\"\n",
+			"x = 1 // "+p+"\ny = 2\n",
+			"/* "+p+" */\nx = 1\n",
+			"| "+p+" word "+p+"\n| second\n",
+			"x = /"+p+"/\n",
+			"a \""+p+"\" {\n\tk = [\""+p+"\", 1]\n}",
+			"x = 1 "+p+"\n",
+			p+" = 1\n",
+			"b {\n| "+p+"\n}\n"+p,
+		)
+	}
+	return out
 }
